@@ -11,7 +11,7 @@ def run(tier, seed):
     build_harness()
     th = tier == "thorough"
     tp = os.path.join(OUT, "traces", "C13-sweep.ndjson")
-    r = vh(["iso-sweep", "--seed", seed, "--pairs", 3000 if th else 500, "--out", tp], timeout=1800)
+    r = vh(["iso-sweep", "--seed", seed, "--pairs", 30000 if th else 5000, "--out", tp], timeout=1800)
     recs = read_ndjson(tp); os.remove(tp)
     mid = recs[len(recs) // 2]
     run.sample({k: mid[k] for k in ("n", "E", "nw0", "n1", "E1", "nw1", "dir", "iso", "sub", "iter") if k in mid})
